@@ -1573,6 +1573,26 @@ impl VirtualFileSystem for Memfs {
         let dst_root = self._abs(&guard, dst)?;
         let copy_into = self._is_dir(&guard, &dst_root);
 
+        // Validate everything up front so that a failed move leaves the filesystem as it was
+        if !guard.contains_entry(&src_root) {
+            return Err(PathError::does_not_exist(&src_root).into());
+        }
+        src_root.dir()?;
+        let dst_first = if copy_into { dst_root.mash(src_root.base()?) } else { dst_root.clone() };
+        let dst_parent = dst_first.dir()?;
+        match guard.get_entry(&dst_parent) {
+            Some(parent) if parent.is_dir() => {},
+            Some(_) => return Err(PathError::is_not_dir(dst_parent).into()),
+            None => return Err(PathError::parent_not_found(dst_parent).into()),
+        }
+        if dst_first != src_root && dst_first.starts_with(&src_root) {
+            return Err(std::io::Error::new(
+                std::io::ErrorKind::InvalidInput,
+                format!("Cannot move a directory into itself: {}", dst_first.display()),
+            )
+            .into());
+        }
+
         let mut paths = vec![src_root.clone()];
         while let Some(src_path) = paths.pop() {
             let dst_path = if copy_into {
